@@ -4467,3 +4467,156 @@ func ruleDigitBuf(prog *Program, rep *Report, floor int, rels ...string) {
 	rep.Rules = append(rep.Rules, "N-digitbuf: a fixed-size array that a loop fills with the decimal digits of an integer (x /= 10) has room for every digit of the integer's type ("+strings.Join(rels, ", ")+")")
 	runSynRule(prog, rep, "N-digitbuf", rels, matchDigitBuf, fixtureDigitBuf, 1, floor)
 }
+
+// ---------------------------------------------------------------- E-nilmapwrite
+
+// matchNilMapWrite: `m, _ := x.(map[K]V)` leaves m nil when x holds something else, and a store m[k] = v into a
+// nil map panics. Such a store needs a nil test of m around it, or a reason why the assertion cannot fail.
+func matchNilMapWrite(files []*ast.File, info *types.Info) (sites []synSite, examined int) {
+	for _, f := range files {
+		for _, d := range f.Decls {
+			fd, ok := d.(*ast.FuncDecl)
+			if !ok || fd.Body == nil {
+				continue
+			}
+			unchecked := map[types.Object]bool{}
+			ast.Inspect(fd.Body, func(n ast.Node) bool {
+				as, ok := n.(*ast.AssignStmt)
+				if !ok || len(as.Lhs) != 2 || len(as.Rhs) != 1 {
+					return true
+				}
+				ta, ok := ast.Unparen(as.Rhs[0]).(*ast.TypeAssertExpr)
+				if !ok || ta.Type == nil {
+					return true
+				}
+				if _, isMap := info.TypeOf(ta.Type).Underlying().(*types.Map); !isMap {
+					return true
+				}
+				if id, ok := as.Lhs[1].(*ast.Ident); !ok || id.Name != "_" {
+					return true
+				}
+				if id, ok := as.Lhs[0].(*ast.Ident); ok {
+					o := info.Defs[id]
+					if o == nil {
+						o = info.Uses[id]
+					}
+					if o != nil {
+						unchecked[o] = true
+					}
+				}
+				return true
+			})
+			if len(unchecked) == 0 {
+				continue
+			}
+			// stores m[k] = v with the enclosing nil tests
+			var walk func(n ast.Node, guarded map[types.Object]bool)
+			walk = func(n ast.Node, guarded map[types.Object]bool) {
+				ast.Inspect(n, func(k ast.Node) bool {
+					switch x := k.(type) {
+					case *ast.IfStmt:
+						g := map[types.Object]bool{}
+						for o := range guarded {
+							g[o] = true
+						}
+						ast.Inspect(x.Cond, func(c ast.Node) bool {
+							if be, ok := c.(*ast.BinaryExpr); ok && be.Op == token.NEQ {
+								for _, pair := range [][2]ast.Expr{{be.X, be.Y}, {be.Y, be.X}} {
+									if id, ok := ast.Unparen(pair[0]).(*ast.Ident); ok {
+										if nid, ok := ast.Unparen(pair[1]).(*ast.Ident); ok && nid.Name == "nil" && unchecked[info.Uses[id]] {
+											g[info.Uses[id]] = true
+										}
+									}
+								}
+							}
+							return true
+						})
+						if x.Init != nil {
+							walk(x.Init, guarded)
+						}
+						walk(x.Body, g)
+						if x.Else != nil {
+							walk(x.Else, guarded)
+						}
+						return false
+					case *ast.AssignStmt:
+						for _, l := range x.Lhs {
+							ix, ok := ast.Unparen(l).(*ast.IndexExpr)
+							if !ok {
+								continue
+							}
+							id, ok := ast.Unparen(ix.X).(*ast.Ident)
+							if !ok || !unchecked[info.Uses[id]] {
+								continue
+							}
+							examined++
+							if !guarded[info.Uses[id]] {
+								name := enclosingFuncName(f, fd.Pos())
+								sites = append(sites, synSite{pos: x.Pos(), file: f, key: fmt.Sprintf("%s:store-into-unchecked-map:%s", name, types.ExprString(l)),
+									msg: fmt.Sprintf("%s stores into %s, which a comma-ok assertion with a discarded ok may have left nil, without a nil test around the store", name, id.Name)})
+							}
+						}
+					}
+					return true
+				})
+			}
+			walk(fd.Body, map[types.Object]bool{})
+		}
+	}
+	return
+}
+
+const fixtureNilMapWrite = `package fixture
+
+func add(stack []any, k string, v any) {
+	obj, _ := stack[len(stack)-1].(map[string]any)
+	obj[k] = v
+	o2, _ := stack[0].(map[string]any)
+	if o2 != nil {
+		o2[k] = v
+	}
+}
+`
+
+// nilMapWriteAccepted: stores that rely on an invariant of the parser's build stack (read).
+var nilMapWriteAccepted = map[string]string{
+	"gen.Parser.add:store-into-unchecked-map:obj[string(k)]":          "the store is made under `if k, ok := stack[top].(gen.Key); ok`: a key is only ever pushed on top of the map it belongs to (the object arm pushes the map, the key arms push the key), which Engine A follows for the JSON front-ends as the kind of the build-stack top; the map below a key is therefore never absent",
+	"oj.Parser.add:store-into-unchecked-map:obj[string(k)]":           "the store is made under `if k, ok := stack[top].(gen.Key); ok`: a key is only ever pushed on top of the map it belongs to (the object arm pushes the map, the key arms push the key), which Engine A follows for the JSON front-ends as the kind of the build-stack top; the map below a key is therefore never absent",
+	"sen.Parser.add:store-into-unchecked-map:obj[string(k)]":          "the store is made under `if k, ok := stack[top].(gen.Key); ok`: a key is only ever pushed on top of the map it belongs to (the object arm pushes the map, the key arms push the key), which Engine A follows for the JSON front-ends as the kind of the build-stack top; the map below a key is therefore never absent",
+	"sen.Parser.addString:store-into-unchecked-map:obj[string(k)]":    "the store is made under `if k, ok := stack[top].(gen.Key); ok`: a key is only ever pushed on top of the map it belongs to (the object arm pushes the map, the key arms push the key), which Engine A follows for the JSON front-ends as the kind of the build-stack top; the map below a key is therefore never absent",
+	"sen.Parser.addToken:store-into-unchecked-map:obj[string(k)]":     "the store is made under `if k, ok := stack[top].(gen.Key); ok`: a key is only ever pushed on top of the map it belongs to (the object arm pushes the map, the key arms push the key), which Engine A follows for the JSON front-ends as the kind of the build-stack top; the map below a key is therefore never absent",
+	"sen.Parser.addTokenWith:store-into-unchecked-map:obj[string(k)]": "the store is made under `if k, ok := stack[top].(gen.Key); ok`: a key is only ever pushed on top of the map it belongs to (the object arm pushes the map, the key arms push the key), which Engine A follows for the JSON front-ends as the kind of the build-stack top; the map below a key is therefore never absent",
+}
+
+func ruleNilMapWrite(prog *Program, rep *Report, rels ...string) {
+	rep.Rules = append(rep.Rules, "E-nilmapwrite: a store into a map obtained by `m, _ := x.(map...)` sits inside a test `m != nil`, or the site is listed with the reason why the assertion cannot fail ("+strings.Join(rels, ", ")+")")
+	ff, finfo, _, err := loadFixture(fixtureNilMapWrite)
+	if err != nil {
+		rep.Errorf("E-nilmapwrite: fixture does not type-check: %v", err)
+		return
+	}
+	if fs, _ := matchNilMapWrite(ff, finfo); len(fs) != 1 {
+		rep.Errorf("E-nilmapwrite: the positive-control fixture produced %d matches (want 1)", len(fs))
+		return
+	}
+	rep.Discharge("E-nilmapwrite", "positive-control", "checker/rules_r7.go", "fixture matched once")
+	for _, rel := range rels {
+		pk := prog.Pkg(rel)
+		if pk == nil {
+			rep.Errorf("E-nilmapwrite: package %s not loaded", rel)
+			continue
+		}
+		sites, n := matchNilMapWrite(pk.Syntax, pk.TypesInfo)
+		rep.Eval(n)
+		acc := 0
+		for _, s := range sites {
+			if why, ok := nilMapWriteAccepted[rel+"."+s.key]; ok {
+				rep.Discharge("E-nilmapwrite", rel+"."+s.key, prog.Pos(s.pos), "accepted (read): "+why)
+				acc++
+				continue
+			}
+			rep.Violate(Finding{Rule: "E-nilmapwrite", Key: rel + "." + s.key, Pos: prog.Pos(s.pos), Msg: s.msg})
+		}
+		rep.Discharge("E-nilmapwrite", rel, rel, fmt.Sprintf("%d stores examined, %d accepted", n, acc))
+	}
+}
